@@ -456,6 +456,9 @@ func (s *Sched) choose(n, nfree int, kind uint8, from *Thread) (int, bool) {
 		}
 	} else if s.ex.memo != nil {
 		k := s.stateKey()
+		// the same state can be the origin of two different kinds of choice in a
+		// row (a thread choice, then the select choice of the thread picked)
+		k.a = mix(k.a, uint64(kind))
 		if old, seen := s.ex.memo[k]; seen && int(old) <= s.cost {
 			s.prunedAt = i
 			s.endFrom(StPruned, from, "")
